@@ -378,6 +378,9 @@ def gen_dataset(rng, n_inputs=None, with_clim=None, missing=None, big=False):
         # -x lat|lon|elev are still one per station
         k = rng2.choice([1, 2, 3])
         xpool = [x if i != 1 else x[:k] + (xpool[0][k],) + x[k + 1:] for i, x in enumerate(xpool)]
+    if rng2.random() < 0.12:
+        # a station whose elevation is not known (NaN in the file): it lies in no -elevrange
+        xpool = [x if i != 2 else x[:3] + (float("nan"),) for i, x in enumerate(xpool)]
     pmiss = missing if missing is not None else rng.choice([0.0, 0.1, 0.3])
     total = n + (1 if clim else 0)
     extra_field = rng.random() < 0.4
